@@ -2,13 +2,17 @@
 C06 — The program's descriptor table is exactly the caller's list, nothing more.
 The subject is the *regenerated* `forkAndExecInChild` (Gen.ForkChild) run by the Go-lite
 interpreter on an abstract descriptor table (Model/FdShuffleRun.lean).
-`C06_small_scope` is a kernel-evaluated statement over an explicit family of layouts (it is a
-bounded statement, labelled as such); the driver evaluates the same predicate exhaustively over
-all lists of length ≤ 3 (quick) / ≤ 4 (thorough) on every run, and the harness launches real
-processes.  An unbounded induction over the list is NOT proved here (see DESIGN.md, C06 partial).
+`C06_shuffle_exact` is the unbounded theorem: for descriptor lists of ANY length and any layout of
+the launcher's table, the hand model of the shuffle (Model/FdShuffle.lean: prepareFds' scratch start,
+the moves of the sync pipe and the exec descriptor, pass 1, pass 2) leaves exactly the caller's list
+after exec.  `C06_small_scope` is the kernel-evaluated tie of that model to the *regenerated*
+forkAndExecInChild on an explicit family of layouts (a bounded statement, labelled as such); the
+driver compares hand model, regenerated code and the property oracle exhaustively over all lists of
+length ≤ 3 (quick) / ≤ 4 (thorough) on every run, and the harness launches real processes.
 PROPERTY THEOREMS ONLY.
 -/
 import GoSandbox.Model.FdShuffleRun
+import GoSandbox.Lemmas.FdShuffle
 namespace GoSandbox.Props.C06
 open GoSandbox.Model.FdShuffleRun
 
@@ -48,8 +52,118 @@ theorem C06_small_scope :
     layouts.all (fun l => okLayout l.1 l.2.1 l.2.2.1 l.2.2.2.1 l.2.2.2.2.1 l.2.2.2.2.2) = true := by
   decide +kernel
 
+/-- **tie of the hand model**: on every layout of the family the regenerated child and the hand
+model of the shuffle (the subject of `C06_shuffle_exact`) leave the same table and hand the same
+file to `execveat` -/
+theorem C06_hand_model_tie :
+    layouts.all (fun l => handAgrees l.1 l.2.1 l.2.2.1 l.2.2.2.1 l.2.2.2.2.1 l.2.2.2.2.2) = true := by
+  decide +kernel
+
 /-- the oracle itself, on a reading example: `[5, marker, 0]` means fd0 = file of 5, fd1 closed, fd2 = file of 0 -/
 example : expectTable [5, M, 0] = [(0, 1005), (2, 1000)] := by decide +kernel
 example : layouts.length = 20 := by decide
+
+/-! ### the unbounded theorem about the shuffle -/
+
+open GoSandbox.Model.FdShuffle GoSandbox.Lemmas.FdShuffle in
+/-- **C06 for every descriptor list** (hand model of the shuffle).  Whatever the launcher's
+descriptor table `t` (all close-on-exec: Go opens everything so), the list `files` (any length; any
+order, repeats, gaps; `none` = close marker), the sync pipe and the optional exec descriptor
+(distinct from each other; they may lie anywhere, also inside `0..n-1` or among the listed numbers):
+after the shuffle and `execve`
+* descriptor `k < n` is the file the caller listed at position `k` (closed for a marker),
+* nothing else is open,
+* the pipe and the exec descriptor still refer to their files, at numbers ≥ n (so pass 2 did not
+  overwrite them) — `execveat` runs the caller's file and errors can still be reported. -/
+theorem C06_shuffle_exact (t : Table) (files : List (Option Nat)) (pipe : Nat) (exec : Option Nat)
+    (hcx : ∀ k e, t k = some e → e.2 = true) (hne : exec ≠ some pipe) :
+    (∀ (k f : Nat), files[k]? = some (some f) → atExec (shuffle t files pipe exec).t k = fileAt t f) ∧
+    (∀ k : Nat, files[k]? = some none → atExec (shuffle t files pipe exec).t k = none) ∧
+    (∀ k, files.length ≤ k → atExec (shuffle t files pipe exec).t k = none) ∧
+    (fileAt (shuffle t files pipe exec).t (shuffle t files pipe exec).pipe = fileAt t pipe ∧ files.length ≤ (shuffle t files pipe exec).pipe) ∧
+    (∀ e, exec = some e → ∃ e', (shuffle t files pipe exec).exec = some e' ∧
+        fileAt (shuffle t files pipe exec).t e' = fileAt t e ∧ files.length ≤ e') := by
+  obtain ⟨hlen, hsrc⟩ := scratchStart_spec files
+  obtain ⟨p1, p2, p3, p4, p5, p6, p7⟩ := prelude_spec t pipe exec (scratchStart files) hne
+  have hsrc' : ∀ f, some f ∈ files → f < (prelude t pipe exec (scratchStart files)).next := fun f hf => by
+    have := hsrc f hf; omega
+  obtain ⟨q1, q2, q3, q4, q5, q6⟩ := pass1_spec (prelude t pipe exec (scratchStart files)).pipe (prelude t pipe exec (scratchStart files)).exec
+    files 0 (prelude t pipe exec (scratchStart files)).t (prelude t pipe exec (scratchStart files)).next hsrc' (by omega)
+  have hlocs : ∀ (k f : Nat), (pass1 (prelude t pipe exec (scratchStart files)).pipe (prelude t pipe exec (scratchStart files)).exec 0 files
+      (prelude t pipe exec (scratchStart files)).t (prelude t pipe exec (scratchStart files)).next).1[k]? = some (some f) → 0 + k ≤ f := by
+    intro k f hk
+    have hk1 : k < files.length := by
+      rw [← q1]; exact (List.getElem?_eq_some_iff.mp hk).1
+    cases hf : files[k]? with
+    | none => exact absurd hf (by simp [List.getElem?_eq_none_iff]; omega)
+    | some v =>
+      cases v with
+      | none => rw [q3 k hf] at hk; cases hk
+      | some f0 =>
+        obtain ⟨g, g1, g2, _⟩ := q2 k f0 hf
+        rw [g1] at hk
+        have : g = f := by cases hk; rfl
+        omega
+  obtain ⟨r1, r2, r3⟩ := pass2_spec _ 0 (pass1 (prelude t pipe exec (scratchStart files)).pipe (prelude t pipe exec (scratchStart files)).exec 0 files
+      (prelude t pipe exec (scratchStart files)).t (prelude t pipe exec (scratchStart files)).next).2.1 hlocs
+  have hat : ∀ (T : Table) (k : Nat) (v : Option (Nat × Bool)), T k = v.map (fun e => (e.1, false)) → atExec T k = v.map (·.1) := by
+    intro T k v h
+    unfold atExec
+    rw [h]
+    cases v <;> rfl
+  -- close-on-exec of everything at or above the list length
+  have hhigh : ∀ k, files.length ≤ k → atExec (shuffle t files pipe exec).t k = none := by
+    intro k hk
+    have h1 := r3 k (Or.inr (by rw [q1]; omega))
+    simp only [Model.FdShuffle.shuffle, atExec]
+    rw [h1]
+    rcases q6 k with h2 | ⟨e, h2 | h2⟩
+    · rw [h2]
+      rcases p7 k with h3 | ⟨x, h3 | h3⟩
+      · rw [h3]
+        cases htk : t k with
+        | none => rfl
+        | some v =>
+          have := hcx k v htk
+          obtain ⟨a, b⟩ := v
+          simp only at this
+          subst this; rfl
+      · rw [h3]
+      · rw [h3]
+    · rw [h2]
+    · rw [h2]
+  have hpipe : (Model.FdShuffle.shuffle t files pipe exec).pipe = (prelude t pipe exec (scratchStart files)).pipe := rfl
+  refine ⟨?_, ?_, hhigh, ⟨?_, by rw [hpipe]; omega⟩, ?_⟩
+  · intro k f hk
+    obtain ⟨g, g1, _, g3⟩ := q2 k f hk
+    have h1 := r1 k g g1
+    simp only [Nat.zero_add] at h1
+    have h2 := hat (Model.FdShuffle.shuffle t files pipe exec).t k _ h1
+    rw [h2]
+    have : f < scratchStart files := hsrc f (List.mem_of_getElem? hk)
+    have h3 : fileAt t f = fileAt (prelude t pipe exec (scratchStart files)).t f := by rw [fileAt, fileAt, p6 f this]
+    rw [h3, ← g3]; rfl
+  · intro k hk
+    have h1 := r2 k (q3 k hk)
+    simp only [Nat.zero_add] at h1
+    simp only [Model.FdShuffle.shuffle, atExec]
+    rw [h1]
+  · simp only [Model.FdShuffle.shuffle]
+    rw [fileAt, r3 _ (Or.inr (by rw [q1]; omega)), q5 _ (Or.inl rfl)]
+    exact p3
+  · intro e he
+    obtain ⟨e', e1, e2, _, e4⟩ := p5 e he
+    refine ⟨e', e1, ?_, by omega⟩
+    simp only [Model.FdShuffle.shuffle]
+    rw [fileAt, r3 _ (Or.inr (by rw [q1]; omega)), q5 _ (Or.inr e1)]
+    exact e4
+
+open GoSandbox.Model.FdShuffle in
+/-- non-vacuity: reversal with the pipe inside the target range and an exec descriptor right above -/
+example :
+    let t : Table := fun k => if k < 6 then some (1000 + k, true) else none
+    let o := shuffle t [some 2, some 1, some 0, none, some 2] 1 (some 5)
+    ((List.range 8).map (atExec o.t) = [some 1002, some 1001, some 1000, none, some 1002, none, none, none]) ∧
+    fileAt o.t o.pipe = some 1001 ∧ (o.exec.bind (fileAt o.t)) = some 1005 := by decide
 
 end GoSandbox.Props.C06
